@@ -126,6 +126,7 @@ def c12(A, ctx, tier):
     plumb.r_classifkind(A, ctx, {})
     plumb.r_row0(A, ctx, {})
     plumb.r_classes(A, ctx, {})
+    plumb.r_expstable(A, ctx, {})
     ctx.assume("probability normalisation/monotonicity (sklearn mix-ins, softmax) are "
                "runtime behaviour and not decided")
     return dict(explanation="one-vs-rest assembly gathers every fitted attribute from the "
